@@ -24,6 +24,10 @@ def reset_stage_for_retry(stage: StageExecution) -> None:
     # split's recorded branch activations belong to the previous iteration.
     for key in ("_join_fired", "_completed_branches", "_activated_branches"):
         stage.context.pop(key, None)
+    # A REDIRECT completion still in flight for the previous iteration is stale
+    # from here on (see CompleteTaskHandler).
+    if "_pending_redirect_task" in stage.context:
+        stage.context["_pending_redirect_task"] = None
     for task in stage.tasks:
         task.status = WorkflowStatus.NOT_STARTED
         task.start_time = None
